@@ -303,7 +303,12 @@ class Arr(object):
         return libmodels.CURRENT.np.dot(self, other)
 
     def astype(self, dtype, **kw):
-        return self.copy()
+        from . import libmodels
+        r = self.copy()
+        if libmodels.CURRENT is not None:
+            r2 = libmodels.cast_to_dtype(libmodels.CURRENT, r, dtype)
+            return r2
+        return r
 
     def tobytes(self, *a, **k):
         """A hashable stand-in for the raw buffer: equal iff shape and every element are the same abstract value."""
